@@ -39,6 +39,37 @@ func c20Strings(c *ctx) []string {
 			out = append(out, s)
 		}
 	}
+	// digests with boundary bytes in boundary places, for every hash kind: 0x2d (the separator's own byte), 0x00, 0xff at
+	// the start, at the end and throughout
+	for _, hk := range []struct {
+		name string
+		n    int
+	}{{"sha1", 20}, {"sha224", 28}, {"sha256", 32}, {"abc", 5}, {"abc", 1}} {
+		for _, bb := range []byte{0x2d, 0x00, 0xff} {
+			for _, where := range []string{"first", "first two", "last", "all"} {
+				d := make([]byte, hk.n)
+				for i := range d {
+					d[i] = byte(17*i + 3)
+				}
+				switch where {
+				case "first":
+					d[0] = bb
+				case "first two":
+					d[0] = bb
+					if len(d) > 1 {
+						d[1] = bb
+					}
+				case "last":
+					d[len(d)-1] = bb
+				default:
+					for i := range d {
+						d[i] = bb
+					}
+				}
+				add(hk.name + "-" + hex.EncodeToString(d))
+			}
+		}
+	}
 	// exhaustive short strings
 	maxLen := c.n(3, 4)
 	var rec func(prefix []byte)
@@ -274,12 +305,16 @@ func runC20(c *ctx) {
 		testStr(a, s)
 	}
 	// JSON and binary encodings
-	for i := 0; i < c.n(400, 4000) && len(refs) > 0; i++ {
+	for i := 0; i < c.n(400, 4000)+len(refs) && len(refs) > 0; i++ {
 		a := c.rng.Intn(len(refs))
+		mut := c.rng.Intn(6)
+		if i < len(refs) { // every ref of the pool once, unmutated
+			a, mut = i, 5
+		}
 		rs := refStr[a]
 		js, _ := refs[a].MarshalJSON()
 		in := js
-		switch c.rng.Intn(6) {
+		switch mut {
 		case 0:
 			in = []byte("null")
 		case 1:
